@@ -55,6 +55,7 @@ type IfaceV struct {
 type StrV struct {
 	ID  Term // Str sort (identity of contents)
 	Len Term
+	Lit *string // known literal contents (constant folding)
 }
 
 type TupleV []Val
